@@ -2,7 +2,7 @@
    ranges.  Over the COMPLETE graphs of the real ansi::graphics functions and
    colour constructors (Generated.v), plus the general arithmetic statement on
    the model and the SGR parameter put on the wire. *)
-From TP Require Import Base Elem Term Screen VT Generated Tie_Colour P_Diff.
+From TP Require Import Base Elem Term Screen VT Show Generated Tie_Colour P_Diff.
 From Coq Require Import ZArith Lia ZifyBool ZifyN.
 Local Open Scope N_scope.
 
@@ -76,3 +76,26 @@ Theorem C19_wire :
     (forall r t, apply_sgr r ([48; 5; n] ++ t) = apply_sgr (set_r_bg r (VIdx n)) t).
 Proof. intros n s. unfold change_colour. repeat split. Qed.
 Print Assumptions C19_wire.
+
+(* the streamed form: a high colour is shown as '#' and its three components,
+   a greyscale colour as '#' and its shade in two decimal digits; over all
+   216 triples and 24 shades the texts are pairwise distinct, so the
+   components can be read back from what is shown *)
+Theorem C19_shown :
+  forallb (fun t => let '(r, g, b) := t in
+     list_eqb N.eqb (show_colour (CHigh (encode_high r g b))) [35; 48 + r; 48 + g; 48 + b]) triples = true /\
+  forallb (fun s => list_eqb N.eqb (show_colour (CGrey (encode_grey s))) [35; 48 + s / 10; 48 + s mod 10])
+          (Nseq 0 24) = true.
+Proof. vm_compute. split; reflexivity. Qed.
+Print Assumptions C19_shown.
+
+(* what is shown for a value does not depend on what was inserted into the
+   stream before it: a sequence of insertions is the concatenation of the texts *)
+Theorem C19_shown_history_independent :
+  forall before v after,
+    show_stream (before ++ v :: after) =
+    show_stream before ++ (show_value v ++ [10]) ++ show_stream after.
+Proof.
+  intros before v after. unfold show_stream. rewrite flat_map_app. reflexivity.
+Qed.
+Print Assumptions C19_shown_history_independent.
